@@ -185,3 +185,14 @@ MUTANTS += [
     dict(prop="C15", name="seek not clamped (original defect)", file="audio/io.py", old="        fp.seek(min(offset, fp.frames))", new="        fp.seek(offset)"),
     dict(prop="C15", name="frequency step uses hop", file="audio/spectrograms.py", old="                step=samplerate / nperseg,", new="                step=samplerate / (nperseg - noverlap),"),
 ]
+CL = "io/crowsetta/labels.py"
+MUTANTS += [
+    dict(prop="C10", name="explicit key lost again (original defect)", file=CL, old="        key = key_mapping.get(label, key)", new="        key = key_mapping.get(label)"),
+    dict(prop="C10", name="empty labels no longer give no tags", file=CL, old="    if label in empty_labels:\n        return []\n", new=""),
+    dict(prop="C10", name="tag_fn ValueError not swallowed", file=CL, old="        except ValueError:\n            pass\n\n    if term_mapping", new="        except KeyError:\n            pass\n\n    if term_mapping"),
+    dict(prop="C10", name="time expansion applied twice to times", file="io/crowsetta/segment.py", old="        start_time = start_time / recording.time_expansion\n        end_time = end_time / recording.time_expansion\n\n    geometry = data.TimeInterval", new="        start_time = start_time / recording.time_expansion / recording.time_expansion\n        end_time = end_time / recording.time_expansion\n\n    geometry = data.TimeInterval"),
+    dict(prop="C10", name="bbox frequencies divided instead of multiplied", file="io/crowsetta/bbox.py", old="        low_freq = low_freq * recording.time_expansion", new="        low_freq = low_freq / recording.time_expansion"),
+    dict(prop="C10", name="sample index rounds", file="io/crowsetta/segment.py", old="    return int(time * recording.samplerate)", new="    return int(time * recording.samplerate + 0.5)"),
+    dict(prop="C10", name="Nyquist cap removed", file="io/crowsetta/bbox.py", old="    high_freq = min(high_freq, nyquist_freq)\n", new=""),
+    dict(prop="C10", name="select_by_key keyword clash again (original defect)", file=CL, old='        return label_from_tag(tag, **{**kwargs, "value_only": True})', new="        return label_from_tag(tag, value_only=True, **kwargs)"),
+]
